@@ -379,7 +379,7 @@ func c05Mutate(r *RNG, body []byte) []byte {
 }
 
 func c05FuzzCase(c *Ctx, id string, body []byte) {
-	fmt.Fprintf(c.Cases(), "F %s %s\n", id, hx(body))
+	fmt.Fprintf(c.Cases(), "F %s\nX %s\nE\n", id, hx(body))
 	w := c.Impl()
 	fmt.Fprintf(w, "C %s\n", id)
 	m := &trie.Slim{}
